@@ -403,8 +403,7 @@ impl Form {
 #[derive(Clone, Debug)]
 struct Call {
     /// piped forms only: the piped value first goes through an identity stage, `x -> m.idm -> f …`
-    /// (1, a method) or `x -> idf -> f …` (2, a local function; the shape of F-C02-9, not generated
-    /// while that finding is open): chained pipes must equal the nested calls
+    /// (1, a method) or `x -> idf -> f …` (2, a local function; the shape of F-C02-9, fixed): chained pipes must equal the nested calls
     pre: u8,
     /// length of the access chain to the method for Inst / PipedInst: 1 `m.f`, 2 `a2.m.f`, 3 `a3.a2.m.f`
     depth: u8,
@@ -654,8 +653,9 @@ fn gen_call(rng: &mut Rng, d: &Def, count: usize, n_packs: usize, form_pick: usi
     };
     // paren-free calls cannot start with a parenthesised/packed-empty ambiguity: `f ()...` is fine,
     // but a call without arguments is written `f()`
-    // F-C02-9 (known): a stage through a *local* function id whose result is piped on is not generated
-    let pre = if form.is_piped() && rng.chance(1, 2) { 1 } else { 0 };
+    // an identity stage before the call: through a method (1) or through a local function id
+    // (2, the shape of F-C02-9, fixed b213b41)
+    let pre = if form.is_piped() { [0, 1, 2][rng.below(3)] } else { 0 };
     Call { pre, depth, form, args }
 }
 
